@@ -2,7 +2,7 @@ ID = "C18"
 PROPS_FILE = "props/C18.v"
 COQ_TARGETS = ["props/C18.vo", "judge/J18.vo", "model/Pack.vo"]
 JUDGE = ("judge.J18", "J18.judge")
-JUDGE_IMPORTS = ("From NSQV Require Import model.Cluster.",)
+JUDGE_IMPORTS = ("From NSQV Require Import model.Cluster model.Quantile.",)
 JUDGE_SCOPE = "N_scope"
 REPO_BINS = [("nsqadmin", "apps/nsqadmin", "")]
 RULE = ("(view) first, on one generated cluster per mode, EVERY subset of the 4 nsqds failing (x no / one / all nsqlookupds failing) for the counter, topic and channel views and every subset of the 3 nsqlookupds failing for the list views; then generated clusters of recording stub upstreams - 1-3 nsqlookupds or 1-4 directly configured nsqds, 4 stub nsqds with 1-3 topics and 0-3 channels "
@@ -10,8 +10,11 @@ RULE = ("(view) first, on one generated cluster per mode, EVERY subset of the 4 
         "without hostnames, optional fields present/absent/null (e2e aggregate, clients, zone/region/global counters, a claimed memory_depth), JSON null topics / channels / "
         "clients / producers, fewer tombstone flags than topics, producers that point at nothing, every failing-upstream class (refused, 500, not JSON, wrong JSON type, "
         "a number beyond int64, /info or /stats alone failing, stubs that ignore the topic filter) - and for each cluster the real nsqadmin's /api/topics, /api/nodes, "
-        "/api/topics/:t, /api/topics/:t/:c, /api/counter, /api/nodes/:n read over a real connection and compared with the model's view of what the stubs served; "
-        "(addfn) the real stringy.Uniq/Union, Producer.UnmarshalJSON, ChannelStats.Add, TopicStats.Add called directly on generated values; "
+        "/api/topics/:t, /api/topics/:t/:c, /api/counter, /api/nodes/:n read over a real connection and compared with the model's view of what the stubs served "
+        "(the e2e aggregate of the topic, of each of its channels and of the channel view included; a view is 200 unless the stubs' data hold a documented excuse for a 500); "
+        "(addfn) the real stringy.Uniq/Union, Producer.UnmarshalJSON, ChannelStats.Add, TopicStats.Add called directly on generated values; the real ChannelStats.Add on e2e blocks "
+        "decoded by the real UnmarshalJSON, with a fresh receiver and with the first node's block as the receiver: EVERY zero / non-zero count pattern over 1-3 nodes x 5 ways the nodes' "
+        "percentile sets relate (same, subset, disjoint, reordered, empty), 5-10 nodes, null entries that do and do not make the merge panic, random blocks with small negative counts; "
         "(hostile) the real apps/nsqadmin binary as a subprocess (lookupd mode, direct mode, and with an unreachable --notification-http-endpoint) against the recorded "
         "crash witnesses F4/F8/F12/F13 and random subtree mutations (null, [], {}, numbers, strings, [null], 1e40) of valid /stats, /nodes, /lookup, /info, /topics documents: "
         "observed = the process is still there and answers /ping. Every case is non-trivial; distinct = distinct terms.")
@@ -21,9 +24,15 @@ TRUSTED = [
     "report of a node came first, list orders before sorting - are compared as multisets / membership), sort.Sort (unstable; only the byte-wise order of /api/topics is compared exactly)",
     "hook /repo/verifshim/clusterinfo.go (build tag verif): type aliases of the clusterinfo / quantile types and wrappers of stringy.Add/Union/Uniq",
     "the stub upstreams and response parsers of /verif/harness/cmd/admindrive",
+    "float64 arithmetic of the e2e merge: modelled in exact rationals with the division a partial operation (by zero = NaN / infinity = encoding/json refuses the answer = 500); rounding and overflow are "
+    "not modelled - the correspondence feeds numbers float64 represents exactly (integers below 2^53, halves; counts whose sums stay below 2^53) and compares averages up to (1 + max value) * 2^-40 "
+    "(2^-30 and the sum of |counts| as a factor when a count is negative), counts and maxima exactly",
 ]
 ASSUMPTIONS = [
-    "quantile (e2e latency) merging is not summed by the code and is outside the property; only its nil handling is modelled",
+    "e2e latency aggregates: count, max and average per quantile are modelled and judged (weighted mean for counts >= 0, which is what nsqd reports; with negative counts only finiteness and agreement "
+    "with the model); the key \"min\" is not (the code sets it to the max of the node merged last) and the entry order is not (sort.Sort by a key no entry has)",
+    "a null percentile entry in the FIRST node's block of a channel of the topic view stays a nil map; a later node's null entry or quantile-0 entry selects it and the assignment panics: a recovered 500 "
+    "(modelled as such, confirmed on the real nsqadmin; the view profile keeps channel blocks free of null entries, the direct calls exercise it)",
     "OutOfDate / version comparison of the node list and the client sort order (ClientStatsByNodeTopology) are not modelled",
     "a topic view over nodes of which one reports a JSON null channel, a channel view of a channel no node has, and a node view over a null channel are answered 500 by a recovered handler panic (modelled as such; the process survives)",
     "with no producer at all for a topic the code's len(errs) == len(producers) rule (0 == 0) answers 502; modelled as is",
@@ -32,16 +41,20 @@ LEVEL_TEXT = ("Machine-checked proof (Coq 8.16.1) over an executable model of st
               "Producer.UnmarshalJSON's tombstone pairing, GetLookupdTopics / GetNSQDTopics / GetLookupdProducers / GetLookupdTopicProducers / GetNSQDStats with its keyed "
               "channel map, the len(errs) == len(upstreams) rule and the six view handlers: for ANY number of upstreams and ANY contents every aggregated counter (13 per channel, "
               "8 per topic) is the int64 sum over the node entries (exact whenever the sum fits), paused = some node paused, node and client lists are exactly the entries'; "
+              "the e2e latency aggregate (E2eProcessingLatencyAggregate.UnmarshalJSON / Add, exact rationals, the division written as a partial operation) of ANY nodes - absent blocks, null entries, "
+              "zero counts on some or all nodes, any percentile sets - is computed without a panic and without a division by zero, has one entry per quantile some node lists, whose count is the sum "
+              "of the counts, whose max is the largest value, and whose average times count is the sum of count x value (the weighted mean; 0 when nothing was counted), independent of the merge order; "
               "topic / node / producer lists are duplicate-free unions of what the answering upstreams list; with any set of failing upstreams the value is the value for the "
               "non-failing ones, a warning iff some fail, 502 iff a stage gets no answer; none of it depends on the order in which the upstreams answer (permutation invariance, "
               "which is what licenses a sequential model of the concurrent fetches); /api/counter's rows are exactly the per-node entries and each key carries their int64 sum; "
-              "the shapes the model relies on (fields summed by Add, Paused handling, the len(errs) rule of every Get*, every nil guard, the tombstone pairing expression) are regenerated "
+              "the shapes the model relies on (fields summed by Add, Paused handling, the len(errs) rule of every Get*, every nil guard, the tombstone pairing expression, every statement of the quantile Add "
+              "and of UnmarshalJSON's loop) are regenerated "
               "from internal/clusterinfo and internal/quantile on every run and pinned by obligations; and, with every dereference of upstream-decoded data and the tombstone index written "
               "as an explicit crashing operation, no input makes any view crash the process (only a recovered 500 for a null channel / unknown channel). Tied to the code by "
               "differential correspondence on the real nsqadmin (in-process for the views, subprocess for the hostile stream) and on the real functions through verifshim.")
 LEVEL_NOTE = ("Trusted: Coq kernel + vm_compute; the hand-written model; the stubs and parsers of the harness; the correspondence is sampled, the theorems are not. Partial: JSON decoding, "
               "HTTP transport and goroutine interleaving are the Go runtime / standard library (modelled at their interface: decoded values, failed-or-answered, list order); "
-              "quantile merging and version/out-of-date flags are not modelled.")
+              "the e2e merge is modelled in exact rationals (float64 rounding / overflow and the junk key \"min\" are not); version/out-of-date flags are not modelled.")
 TECHNIQUE = "Coq proofs (induction over upstream lists, keyed-fold invariants, guarded-vs-plain refinement for the no-panic claim) + differential correspondence on the real nsqadmin and the real clusterinfo functions"
 DESIGN_REF = "DESIGN.md §5 C18"
 SEARCH_SCALE = 4
